@@ -1,6 +1,7 @@
 package props
 
 import (
+	"astverif/demuxrules"
 	"astverif/errflow"
 	"astverif/extrarules"
 	"astverif/itersafe"
@@ -63,6 +64,7 @@ func c03(c *Ctx) {
 	tables.T1(c.P, r)
 	// reaching ErrNoMorePackets: an exhausted reader is never turned into a successful read of nothing
 	errflow.E4b(c.P, r)
+	errflow.E4c(c.P, r, "ErrNoMorePackets")
 	// the packet buffer is dropped only by Rewind (which seeks to 0 itself): dropping it after an error makes the next call
 	// detect the packet size again, and a successful detection on a seekable reader rewinds to offset 0 — the stream
 	// would be replayed for ever instead of reaching ErrNoMorePackets
@@ -70,6 +72,9 @@ func c03(c *Ctx) {
 		"re-detecting the packet size after input was consumed rewinds a seekable reader to offset 0 (autoDetectPacketSize): no progress")
 	extrarules.WhoMayStoreField(c.P, r, "P8", "Demuxer.packetBuffer/stored-by", "Demuxer", "packetBuffer", []string{"(*Demuxer).Rewind", "(*Demuxer).NextPacket"}, 2, nil, "stores",
 		"the packet buffer is created lazily by NextPacket and dropped by Rewind only")
+	// "every later call returns ErrNoMorePackets again": the end of the stream is reported only when the pool is really
+	// empty (an empty dump means an empty pool, every dumped group is parsed) — rules R1 of C02
+	demuxrules.New(c.P, r).DrainRules()
 	r.Floor("P5", "progress-on-error return classes of NextPacket", r.Counters["sites_P5"], 1)
 	r.Floor("P6", "declared-end loops", r.Counters["sites_P6"], 1)
 }
